@@ -19,6 +19,9 @@ PROP = {
          "checks": (30000, 400000), "shards": (2, 16), "timeout": (600, 3000)},
         {"name": "c11conc", "pkg": "./pkg/models", "run": "^TestVerif_C11_Concurrent$", "kind": "rapid",
          "facets": ["C11/concurrent"], "checks": (1500, 30000), "shards": (2, 8), "timeout": (600, 3000)},
+        # DedupeItems on any tree the model's consistency check accepts (not only pipeline-shaped ones)
+        {"name": "c11tree", "pkg": "./pkg/models", "run": "^TestVerif_C11_DedupeAnyTree$", "kind": "rapid",
+         "facets": ["C11/dedupe-any-tree"], "checks": (20000, 300000), "shards": (2, 8), "timeout": (600, 3000)},
         {"name": "c11enum", "pkg": "./pkg/models", "run": "^TestVerif_C11_Exhaustive$", "kind": "plain",
          "facets": ["C11/wellformed#enum", "C11/dedupe#enum", "C11/complete-iff#enum", "C11/complete-iff-midpass#enum"],
          "shards": (8, 16), "timeout": (600, 3000),
